@@ -5,6 +5,7 @@ pub mod search;
 pub mod builtins;
 pub mod lists;
 pub mod textprops;
+pub mod timing;
 
 pub fn make(prop: &str, tier: Tier, seed: u64) -> Option<Box<dyn Workload>> {
     Some(match prop {
@@ -28,6 +29,8 @@ pub fn make(prop: &str, tier: Tier, seed: u64) -> Option<Box<dyn Workload>> {
         "C19" => Box::new(textprops::C19::new(tier, seed)),
         "C20" => Box::new(textprops::C20::new(tier, seed)),
         "C21" => Box::new(textprops::C21::new(tier, seed)),
+        "C22" => Box::new(timing::C22::new(tier, seed)),
+        "C23" => Box::new(timing::C23::new(tier, seed)),
         _ => return None,
     })
 }
